@@ -432,6 +432,43 @@ func runCrypto(c *Ctx, r *Reporter) {
 		}
 		r.Check(okM, q(fn)+"#match-gate", p.Rel(fn.Pos()), "match verification runs for every question isMatchQuestion classifies as a match question", "verifyMatch must run on the true edge of isMatchQuestion(): with another gate, questions with an explicit `verification: match` (or the default) would be accepted unverified")
 	}
+	// 8. the answer state of a question is its front matter's Answer / SealedAnswer and nothing else: the fields of a
+	// front matter are written by Seal and Unseal only (decoding fills them by reflection). Anything else a reader
+	// of the answer leaves behind on the object — a remembered plain text, say — survives a later Seal of an edited
+	// answer, so what is unsealed, verified or exported is no longer what was sealed last.
+	nw := 0
+	for _, fn := range ssaFuncsOf(p, pkg) {
+		k := 0
+		for _, b := range fn.Blocks {
+			for _, ins := range b.Instrs {
+				st, ok := ins.(*ssa.Store)
+				if !ok {
+					continue
+				}
+				fa, ok := st.Addr.(*ssa.FieldAddr)
+				if !ok {
+					continue
+				}
+				owner, fname := fieldAddrInfo(fa)
+				if owner == nil || owner.Obj().Name() != "questionFrontmatter" {
+					continue
+				}
+				if a, isAlloc := fa.X.(*ssa.Alloc); isAlloc && a.Parent() == fn {
+					continue // building a new front matter
+				}
+				nw++
+				k++
+				name := ssaDisplayName(fn)
+				good := (name == "(*questionFrontmatter).Seal" || name == "(*questionFrontmatter).Unseal") && (fname == "Answer" || fname == "SealedAnswer")
+				r.Check(good, fmt.Sprintf("%s#frontmatter-write[%d]:%s", q(fn), k, fname), p.Rel(instrPos(st)), "Seal/Unseal move the answer between Answer and SealedAnswer",
+					"a field of a question's front matter ("+fname+") is written outside Seal/Unseal or is not one of Answer/SealedAnswer: state that a reader of the answer leaves on the object (a remembered decryption) survives a later re-seal, "+
+						"so Unseal, Verify and ExportAnswerKey answer with an earlier answer than the one that was sealed last")
+			}
+		}
+	}
+	if nw < 4 {
+		r.Undecided("expected Seal and Unseal to write Answer and SealedAnswer (found %d writes of front-matter fields)", nw)
+	}
 }
 
 func isNilConst(v ssa.Value) bool {
